@@ -106,7 +106,7 @@ def estep (s : ErrState) (t : Nat) : ErrStep → Except ConcErr ErrState
         .ok (setPtr { s with tab := tab } t ((findSlot t tab.recs).map (fun i => ⟨tab.gen, i⟩)))
   | .read =>
     match s.ptr t with
-    | none => .ok s
+    | none => .ok { s with obs := s.obs ++ [⟨t, t, []⟩] }        -- NULL: "no error stored"
     | some p =>
       if p.gen ≠ s.tab.gen then .error .stalePointer
       else match s.tab.recs[p.slot]? with
